@@ -37,7 +37,8 @@ Inductive op :=
 | RAdjust (n : N)              (* peer: MSG_CHANNEL_WINDOW_ADJUST *)
 | RData (d : bytes)            (* peer: MSG_CHANNEL_DATA *)
 | RExt (t : N) (d : bytes)     (* peer: MSG_CHANNEL_EXTENDED_DATA *)
-| RClose.                      (* peer: MSG_CHANNEL_CLOSE *)
+| RClose                       (* peer: MSG_CHANNEL_CLOSE *)
+| AppAdjust (n : N).           (* receiving application: conn.adjustWindow(channel, n) *)
 
 Record st := mk {
   buf : bytes; ext : list (N * bytes); rwl : N; closing : bool;
@@ -175,6 +176,7 @@ Section Machine.
     | RData d => recv_data s CbData d
     | RExt t d => recv_data s (CbExt t) d
     | RClose => recv_close s
+    | AppAdjust n => adjust_window s n
     end.
 
   Definition run (s : st) (ops : list op) : st := fold_left step ops s.
